@@ -3,6 +3,7 @@ mod exec;
 mod hsys;
 mod plan;
 mod prog;
+mod metah;
 mod rng;
 mod worldh;
 
@@ -22,6 +23,7 @@ fn main() {
         "plan" => plan_cmd(&args[2..]),
         "exec" => exec_cmd(&args[2..]),
         "world" => world_cmd(&args[2..]),
+        "meta" => meta_cmd(&args[2..]),
         _ => {
             eprintln!("usage: shred_verif <plan|...> [options]");
             std::process::exit(2);
@@ -186,6 +188,44 @@ fn world_cmd(args: &[String]) {
         let mut r = rng.fork();
         let max_len = match r.below(4) { 0 => 6, 1 | 2 => 30, _ => 200 };
         let ops = worldh::gen_history(&mut r, max_len, gen == "malformed");
+        emit(&ops, &mut out);
+    }
+}
+
+/// meta --gen random|bad|exh --count N --seed S --shard i/n   |   meta --cases FILE
+fn meta_cmd(args: &[String]) {
+    let stdout = std::io::stdout();
+    let mut out = std::io::BufWriter::new(stdout.lock());
+    let mut emit = |ops: &[metah::Op], out: &mut dyn Write| {
+        writeln!(out, "meta :: {}\t{}", metah::ops_text(ops), metah::observe(ops)).unwrap();
+    };
+    if let Some(f) = arg(args, "--cases") {
+        let rd: Box<dyn BufRead> = Box::new(std::io::BufReader::new(std::fs::File::open(f).expect("cases file")));
+        for line in rd.lines() {
+            let line = line.unwrap();
+            let case = line.split('\t').next().unwrap().trim();
+            if case.is_empty() || case.starts_with('#') { continue; }
+            let (_h, t) = case.split_once(" :: ").unwrap_or((case, ""));
+            emit(&metah::parse_ops(t), &mut out);
+        }
+        return;
+    }
+    let gen = arg(args, "--gen").unwrap_or("random");
+    let count: u64 = arg(args, "--count").map(|s| s.parse().unwrap()).unwrap_or(100);
+    let seed: u64 = arg(args, "--seed").map(|s| s.parse().unwrap()).unwrap_or(1);
+    let (si, sn) = arg(args, "--shard").map(|s| { let (a, b) = s.split_once('/').unwrap(); (a.parse::<u64>().unwrap(), b.parse::<u64>().unwrap()) }).unwrap_or((0, 1));
+    if gen == "exh" {
+        let size = metah::exhaustive_size();
+        let stride = count.max(1);
+        let mut k = si * stride + (seed % stride);
+        while k < size { emit(&metah::exhaustive_nth(k), &mut out); k += sn * stride; }
+        return;
+    }
+    let mut rng = Rng::new(seed.wrapping_mul(3_000_017).wrapping_add(si).wrapping_add(0x3E7A));
+    for _ in 0..count {
+        let mut r = rng.fork();
+        let max_len = match r.below(4) { 0 => 6, 1 | 2 => 25, _ => 100 };
+        let ops = metah::gen_history(&mut r, max_len, gen == "bad");
         emit(&ops, &mut out);
     }
 }
